@@ -306,7 +306,7 @@ Proof.
   apply obind_ok in H as (u & _ & H). destruct Hin as [<-|Hin]; [cbn; eauto | eapply IH; eassumption].
 Qed.
 
-Definition relayers_nonempty (g : gx_genesis) : Prop := forall alen, In alen (gx_relayers g) -> alen <> 0.
+Definition relayers_nonempty (g : gx_genesis) : Prop := forall r, In r (gx_relayers g) -> rl_addr_len r <> 0.
 
 Lemma gx_init_safe relayer_check g :
   gx_validate_gen relayer_check g = Ok tt -> (relayer_check = true \/ relayers_nonempty g) -> gx_init g = Ok tt.
@@ -338,13 +338,12 @@ Proof.
     apply all_ok_intro. intros [h a] Hhc. pose proof (all_ok_ok _ _ H' _ Hhc) as H''. cbn in H''.
     destruct ((h_rev h =? 0) && (h_ht h =? 0) && negb (ctype_eqb c TETH) && negb (ctype_eqb c TBSC)); [discriminate|]. destruct a; try discriminate. reflexivity. }
   rewrite E3. cbn [obind].
-  assert (E4 : all_ok (fun alen : N => if alen =? 0 then Panic else Ok tt) (gx_relayers g) = Ok tt).
-  { apply all_ok_intro. intros alen Hin. destruct (alen =? 0) eqn:E; [|reflexivity]. exfalso. apply N.eqb_eq in E.
+  assert (E4 : all_ok (fun r : gx_relayer => if rl_addr_len r =? 0 then Panic else Ok tt) (gx_relayers g) = Ok tt).
+  { apply all_ok_intro. intros r Hin. destruct (rl_addr_len r =? 0) eqn:E; [|reflexivity]. exfalso. apply N.eqb_eq in E.
     destruct Hrel as [->|Hne].
-    - cbn in Hr. destruct (existsb (fun alen => alen =? 0) (gx_relayers g)) eqn:Ex; [discriminate|].
-      assert (existsb (fun alen => alen =? 0) (gx_relayers g) = true) by (apply existsb_exists; exists alen; split; [exact Hin | subst; reflexivity]).
-      congruence.
-    - exact (Hne alen Hin E). }
+    - cbn in Hr. destruct (forallb relayer_ok (gx_relayers g)) eqn:Ex; [|discriminate].
+      rewrite forallb_forall in Ex. specialize (Ex r Hin). unfold relayer_ok in Ex. rewrite E in Ex. discriminate.
+    - exact (Hne r Hin E). }
   rewrite E4. cbn [obind].
   assert (Hpk : forall l, all_ok gx_validate_packet l = Ok tt ->
                 all_ok (fun p : gx_packet => if gp_data_len p =? 0 then Panic else Ok tt) l = Ok tt).
